@@ -26,10 +26,15 @@ InSync(h, r) == r \in DOMAIN h /\ h[r] = h["r0"]
 ProposedAccepted(pre, e) ==
     \A r \in Names(e.verdicts) : InSync(pre, r) => e.verdicts[r] = "ok"
 
-\* C01: a replica that is in sync and is offered an honestly built block never computes another state
-\* transition than the block states (it would refuse the block with a roots / hash mismatch)
+\* C01: replicas that are in sync and are offered the same honestly built block never disagree about its state
+\* transition: it is a violation when one of them refuses the block for a roots / hash mismatch while another accepts
+\* it, and when ALL of them refuse it although re-proposing on the same head gives varying results (the proposer's own
+\* evaluations disagree: node-local nondeterminism).  When every replica, the proposer included, deterministically
+\* refuses the proposal, the replicas agree with each other - that is C02's business (ProposedAccepted), not C01's.
 SameTransition(pre, e) ==
-    \A r \in Names(e.verdicts) : InSync(pre, r) => e.verdicts[r] # "roots-mismatch"
+    LET ins == {r \in Names(e.verdicts) : InSync(pre, r)} IN
+    /\ ~(\E a, b \in ins : e.verdicts[a] = "roots-mismatch" /\ e.verdicts[b] = "ok")
+    /\ ~((\A r \in ins : e.verdicts[r] = "roots-mismatch") /\ ins # {} /\ "diag" \in DOMAIN e /\ e.diag # <<>> /\ e.diag.nondet)
 
 \* C01: all replicas that hold the same chain observe the same result (byte-identical head hash, roots,
 \* flags, epoch, period, next validation time, fee rate, VRF threshold, shards, discrimination threshold,
